@@ -1129,6 +1129,7 @@ impl<R: Read> Revertable for LinearPerspective<R> {
     fn checkpoint(&self) -> Checkpoint {
         Checkpoint {
             index: self.commands.len(),
+            pending: self.current_updates.len(),
         }
     }
 
@@ -1136,10 +1137,12 @@ impl<R: Read> Revertable for LinearPerspective<R> {
         // Equal command count alone does not mean clean: a rule that wrote
         // facts and then failed leaves its writes pending in
         // `facts`/`current_updates` without having added a command. But
-        // every fact write pushes onto `current_updates`, so an empty
-        // buffer at equal command count means the fact overlay is untouched
-        // since the checkpoint and there is nothing to rebuild.
-        if checkpoint.index == self.commands.len() && self.current_updates.is_empty() {
+        // every fact write pushes onto `current_updates`, so an unchanged
+        // buffer length at equal command count means the fact overlay is
+        // untouched since the checkpoint and there is nothing to rebuild.
+        if checkpoint.index == self.commands.len()
+            && self.current_updates.len() == checkpoint.pending
+        {
             return Ok(());
         }
 
@@ -1149,12 +1152,23 @@ impl<R: Read> Revertable for LinearPerspective<R> {
             );
         }
 
+        // Writes that were pending at the checkpoint are either still at the
+        // front of `current_updates`, or were attached to the next command.
+        let pending = self
+            .commands
+            .get(checkpoint.index)
+            .map_or(&self.current_updates, |next| &next.updates)
+            .get(..checkpoint.pending)
+            .assume("pending updates of a checkpoint are still recorded")?
+            .to_vec();
+
         self.commands.truncate(checkpoint.index);
         self.facts.clear();
-        self.current_updates.clear();
         for data in &self.commands {
             self.facts.apply_updates(&data.updates)?;
         }
+        self.facts.apply_updates(&pending)?;
+        self.current_updates = pending;
 
         Ok(())
     }
